@@ -38,11 +38,17 @@ func jobj(kv ...any) *jn {
 	}
 	return n
 }
-func jarr(kids ...*jn) *jn  { return &jn{kind: 'a', kids: kids} }
-func jb64(b []byte) *jn     { return &jn{kind: 's', b: b} }
-func jnum(u uint64) *jn     { return &jn{kind: 'n', txt: strconv.FormatUint(u, 10)} }
-func jraw(s string) *jn     { return &jn{kind: 'r', txt: s} }
-func jb64s(bs [][]byte) *jn { a := jarr(); for _, b := range bs { a.kids = append(a.kids, jb64(b)) }; return a }
+func jarr(kids ...*jn) *jn { return &jn{kind: 'a', kids: kids} }
+func jb64(b []byte) *jn    { return &jn{kind: 's', b: b} }
+func jnum(u uint64) *jn    { return &jn{kind: 'n', txt: strconv.FormatUint(u, 10)} }
+func jraw(s string) *jn    { return &jn{kind: 'r', txt: s} }
+func jb64s(bs [][]byte) *jn {
+	a := jarr()
+	for _, b := range bs {
+		a.kids = append(a.kids, jb64(b))
+	}
+	return a
+}
 
 func (n *jn) write(sb *strings.Builder) {
 	switch n.kind {
